@@ -162,5 +162,6 @@ theorem Reachable.edgeInv {b : Book} (r : Reachable b) : EdgeInv b := by
   | trust a _ ih => exact ih.tr (Tr.misc (coreEq_addTrusted _ a))
   | untrust a _ ih => exact ih.tr (Tr.misc (coreEq_removeTrusted _ a))
   | truncate cut _ ih => exact ih.truncate cut
+  | steps _ s ih => exact ih.steps s
 
 end CModel.Book
